@@ -18,7 +18,7 @@ CHECKS = {
          "TLC model check of timed Client.tla + trace validation of virtual-time executions of the real clients"),
  "C12": ("6", "same machinery as C11; the Schedule / NoRespAtBudget / NoTxAfterAccept properties of Client.tla are model-checked and every recorded Transmit must occur at start + T*(2^(i-1)-1) with identical bytes to the requested destination; NoResponse exactly at T*(2^n-1)",
          "TLC model check of timed Client.tla + trace validation of recorded transmissions"),
- "C14": ("6", "Server.tla (read, decode, skip or spawn handler, Close, handlers outliving later reads) model-checked exhaustively for ExactlyOnce/PeerRule/OwnMessage/ReturnOnlyOnError/LoopSurvives, wrong designs (stop on parse error, shared read buffer) must fail; TLC -simulate behaviours and random scripts are executed on the real server4/server6 Serve loops over a scripted connection and every recorded execution is validated by TLC",
+ "C14": ("6", "Server.tla (one or two goroutines running Serve: read, decode, skip or spawn handler, Close, handlers outliving later reads) model-checked exhaustively for ExactlyOnce/PeerRule/OwnMessage/ReturnOnlyOnError/LoopSurvives, wrong designs (stop on parse error, read buffer kept across iterations, read buffer shared by the loops) must fail; TLC -simulate behaviours and random scripts are executed on the real server4/server6 Serve loops over a scripted connection and every recorded execution is validated by TLC",
          "TLC model check of Server.tla + TLC behaviours replayed into the real servers + trace validation"),
  "C18": ("6", "RawUdp.tla (RFC 791/768/1071 frame layout, ones'-complement checksums, frame acceptance and payload extraction) model-checked in a small scope (writer frames verify under an independent receiver-side check; reader returns exactly the matching payloads); every frame written by the real BroadcastRawUDPConn and every result of reading harness-built frame sequences is validated by TLC against the same operators",
          "TLC model check of RawUdp.tla + trace validation of written frames and read sequences"),
